@@ -18,9 +18,11 @@
 package main
 
 import (
+	"encoding/json"
 	"fmt"
 	"math/rand/v2"
 	"os"
+	"runtime"
 	"strings"
 	"sync"
 	"sync/atomic"
@@ -36,6 +38,121 @@ func newName() string { return fmt.Sprintf("/%s%d", namePrefix, nameCtr.Add(1)) 
 
 const threshold = 256 // VGI_RPC_SHM_MIN_BATCH_BYTES set through check.conf
 
+// reporter is the part of mon.Run the arms use; the child-process arm
+// substitutes a collector whose content is replayed into the parent's Run.
+type reporter interface {
+	Violation(signature, what string, witness any) bool
+	Class(name string)
+	Case(sig string)
+	Sample(v any)
+	Fatal(format string, a ...any)
+	Rand(stream ...uint64) *rand.Rand
+}
+
+type collected struct {
+	Violations []struct {
+		Sig, What string
+		Witness   json.RawMessage
+	}
+	Classes []string
+	Cases   []string
+	Fatal   string
+}
+
+type collector struct {
+	run *mon.Run // only for Rand (same derivation as the parent)
+	c   collected
+}
+
+func (k *collector) Violation(sig, what string, w any) bool {
+	data, _ := json.Marshal(w)
+	k.c.Violations = append(k.c.Violations, struct {
+		Sig, What string
+		Witness   json.RawMessage
+	}{sig, what, data})
+	return false
+}
+func (k *collector) Class(n string)  { k.c.Classes = append(k.c.Classes, n) }
+func (k *collector) Case(sig string) { k.c.Cases = append(k.c.Cases, sig) }
+func (k *collector) Sample(any)      {}
+func (k *collector) Fatal(f string, a ...any) {
+	k.c.Fatal = fmt.Sprintf(f, a...)
+	panic("harness fatal: " + k.c.Fatal)
+}
+func (k *collector) Rand(stream ...uint64) *rand.Rand { return k.run.Rand(stream...) }
+
+// diffChild runs differential histories [from,to) in a child process whose
+// environment carries a different VGI_RPC_SHM_MIN_BATCH_BYTES (read once).
+func diffChild(in []byte) []byte {
+	var rng struct{ From, To int }
+	_ = json.Unmarshal(in, &rng)
+	k := &collector{run: mon.Start("C36")}
+	tot := &totals{}
+	func() {
+		defer func() {
+			if rv := recover(); rv != nil && k.c.Fatal == "" {
+				panic(rv)
+			}
+		}()
+		for i := rng.From; i < rng.To; i++ {
+			runDifferential(k, i, tot)
+		}
+	}()
+	shmref.CleanupPrefix(namePrefix)
+	out, _ := json.Marshal(k.c)
+	return out
+}
+
+// runOtherThreshold replays children's findings into the parent's run.
+func runOtherThreshold(r *mon.Run, thr string, from, to, parallel int) {
+	var inputs [][]byte
+	step := (to - from + parallel - 1) / parallel
+	for a := from; a < to; a += step {
+		b, _ := json.Marshal(struct{ From, To int }{a, min(a+step, to)})
+		inputs = append(inputs, b)
+	}
+	var wg sync.WaitGroup
+	outs := make([]mon.Outcome, len(inputs))
+	for i := range inputs {
+		wg.Add(1)
+		go func(i int) {
+			defer wg.Done()
+			o, err := mon.RunIsolated("diff", inputs[i:i+1], mon.ChildOpt{Env: []string{"VGI_RPC_SHM_MIN_BATCH_BYTES=" + thr}})
+			if err != nil {
+				r.Fatal("child arm: %v", err)
+			}
+			outs[i] = o[0]
+		}(i)
+	}
+	wg.Wait()
+	for _, o := range outs {
+		switch {
+		case o.TimedOut:
+			r.Inconclusive("child arm (threshold " + thr + ") hit the watchdog")
+			continue
+		case o.Crashed || o.Panicked:
+			r.Violation("child-arm:threshold-"+thr+":process-died", "the session process died (fatal error / escaped panic) while serving shm histories", o.Detail)
+			continue
+		}
+		var c collected
+		if err := json.Unmarshal(o.Output, &c); err != nil {
+			r.Fatal("child output: %v", err)
+		}
+		if c.Fatal != "" {
+			r.Fatal("child: %s", c.Fatal)
+		}
+		for _, v := range c.Violations {
+			r.Violation(v.Sig, "[threshold "+thr+"] "+v.What, v.Witness)
+		}
+		for _, cl := range c.Classes {
+			r.Class("threshold-" + thr + ":" + cl)
+		}
+		for _, cs := range c.Cases {
+			r.Case("thr" + thr + "|" + cs)
+		}
+	}
+}
+
 type history struct {
 	Index int        `json:"history_index"`
 	Fit   string     `json:"segment_fit"`
@@ -44,23 +161,33 @@ type history struct {
 }
 
 type sessionResult struct {
-	Obs       []obsCall `json:"observations"`
-	Leaks     []string  `json:"leaks,omitempty"`
-	Deadlock  bool      `json:"deadlock"`
-	ServerEnd string    `json:"server_end"`
-	stats     shmStats
+	Obs         []obsCall `json:"observations"`
+	Leaks       []string  `json:"leaks,omitempty"`
+	Deadlock    bool      `json:"deadlock"`
+	ServerEnd   string    `json:"server_end"`
+	ServerPanic string    `json:"server_panic,omitempty"`
+	stats       shmStats
 }
 
 // runSession runs the calls of h over one connection.
-func runSession(r *mon.Run, h history, withShm bool) sessionResult {
+func runSession(r reporter, h history, withShm bool) sessionResult {
 	var res sessionResult
 	d := newDuplex()
 	srv := newServer()
 	done := make(chan struct{})
+	var serverPanic string
 	go func() {
 		defer close(done)
+		defer pipeEnd{d, 1}.Close()
+		defer func() {
+			// A panic that escapes Serve would kill a real worker process: the
+			// session does not continue. Keep the harness alive and report it.
+			if rv := recover(); rv != nil {
+				buf := make([]byte, 4096)
+				serverPanic = fmt.Sprintf("%v\n%s", rv, buf[:runtime.Stack(buf, false)])
+			}
+		}()
 		srv.Serve(pipeEnd{d, 0}, pipeEnd{d, 1})
-		pipeEnd{d, 1}.Close()
 	}()
 	c := &client{d: d, w: pipeEnd{d, 0}, r: pipeEnd{d, 1}, st: &res.stats}
 	var segs []*cliSeg
@@ -109,6 +236,7 @@ func runSession(r *mon.Run, h history, withShm bool) sessionResult {
 	}
 	c.w.Close()
 	<-done
+	res.ServerPanic = serverPanic
 	d.mu.Lock()
 	if d.dead {
 		res.Deadlock = true
@@ -117,12 +245,6 @@ func runSession(r *mon.Run, h history, withShm bool) sessionResult {
 		res.ServerEnd = fmt.Sprintf("%d unread bytes from the server at the end", rest)
 	}
 	d.mu.Unlock()
-	for _, s := range segs {
-		if bad := s.m.CanaryIntact(nil); bad >= 0 && len(s.m.Header().Entries) == 0 {
-			// every slot was refilled on free: any non-canary byte now was written outside a live slot
-			res.Leaks = append(res.Leaks, fmt.Sprintf("byte %d of the data area was written after its slot had been released / outside any slot", bad))
-		}
-	}
 	return res
 }
 
@@ -194,6 +316,10 @@ func genHistory(rng *rand.Rand, idx int) history {
 			}
 			if p.N > 400 {
 				p.N = 300 + p.N%300
+			}
+			if cs.Method == "produce_nested" && rng.IntN(2) == 0 {
+				p.Rows = int64(40 + rng.IntN(40)) // only top-level buffers count toward the shm threshold
+				p.N %= 60
 			}
 		case "exchange":
 			cs.Turns = 1 + rng.IntN(4)
@@ -298,7 +424,7 @@ func (t *totals) add(s shmStats) {
 	t.mu.Unlock()
 }
 
-func runDifferential(r *mon.Run, idx int, tot *totals) {
+func runDifferential(r reporter, idx int, tot *totals) {
 	rng := r.Rand(1, uint64(idx))
 	h := genHistory(rng, idx)
 	shm := runSession(r, h, true)
@@ -308,10 +434,14 @@ func runDifferential(r *mon.Run, idx int, tot *totals) {
 	witness := func() map[string]any {
 		return map[string]any{"history": h, "with_segment": shm, "without_segment": plain}
 	}
-	if plain.Deadlock || len(plain.Obs) != len(h.Calls) {
+	if plain.Deadlock || plain.ServerPanic != "" || len(plain.Obs) != len(h.Calls) {
 		// the plain session itself broke: not this property's business (frame sync is C02) — skip, but say so
 		r.Class("plain-session-broken")
 		r.Case("")
+		return
+	}
+	if shm.ServerPanic != "" && plain.ServerPanic == "" {
+		r.Violation("diff:server-panic-with-segment", "a panic escaped Serve in the session with a segment (the plain session completed): "+strings.SplitN(shm.ServerPanic, "\n", 2)[0], witness())
 		return
 	}
 	if shm.Deadlock {
@@ -409,7 +539,7 @@ func hasKind(o obsCall, kind string) bool {
 	return false
 }
 
-func runUnadvertised(r *mon.Run, idx int) {
+func runUnadvertised(r reporter, idx int) {
 	rng := r.Rand(2, uint64(idx))
 	scen := []string{"unary-request", "stream-request", "exchange-input"}[idx%3]
 	mk := func(method string) callSpec {
@@ -450,6 +580,10 @@ func runUnadvertised(r *mon.Run, idx int) {
 		r.Class("plain-session-broken")
 		return
 	}
+	if got.ServerPanic != "" {
+		r.Violation("unadvertised:"+scen+":server-panic", "a panic escaped Serve after a pointer batch on a never-advertised connection: "+strings.SplitN(got.ServerPanic, "\n", 2)[0], witness)
+		return
+	}
 	if len(got.Obs) < 2 {
 		r.Violation("unadvertised:"+scen+":session-ended", "the session ended before the pointer call was answered", witness)
 		return
@@ -486,6 +620,7 @@ func runUnadvertised(r *mon.Run, idx int) {
 }
 
 func main() {
+	mon.ChildMain(map[string]mon.ChildFunc{"diff": diffChild})
 	r := mon.Start("C36")
 	defer r.Finish()
 	defer shmref.CleanupPrefix(namePrefix)
@@ -501,7 +636,8 @@ func main() {
 		"request-via-pointer", "exchange-input-via-pointer", "client-put-did-not-fit", "fit:all", "fit:some", "fit:none",
 		"advertise:every", "advertise:first-only", "advertise:random", "segment-changed-mid-connection", "error-mid-stream",
 		"init-error-with-pointer-input", "pointer-request-on-cached-segment", "advertised-but-inline:none", "advertised-but-inline:some",
-		"unadvertised:unary-request", "unadvertised:stream-request", "unadvertised:exchange-input")
+		"unadvertised:unary-request", "unadvertised:stream-request", "unadvertised:exchange-input",
+		"threshold-0:via-shm:unary", "threshold-0:via-shm:producer", "threshold-0:via-shm:exchange")
 
 	nDiff := r.N(300, 20000)
 	nNeg := r.N(60, 3000)
@@ -527,6 +663,9 @@ func main() {
 		}()
 	}
 	wg.Wait()
+	// Same histories' successors with every non-empty batch eligible for shm (threshold 0),
+	// in child processes because the library reads the variable once.
+	runOtherThreshold(r, "0", nDiff, nDiff+r.N(90, 3000), r.N(3, 12))
 	r.Count("client.requests_via_pointer", tot.st.reqViaShm)
 	r.Count("client.requests_inline", tot.st.reqInline)
 	r.Count("client.exchange_inputs_via_pointer", tot.st.inViaShm)
